@@ -56,6 +56,11 @@ func c18NewWorld(fmtName string, world int, seed int64) *c18World {
 			panic(err)
 		}
 		w.p2, w.index, w.paths, w.data = s, s.Index, s.Paths, s.Data
+	} else if world == c18RefWorld {
+		// a PAR1 set from the reference writer: two saved files, two listed files that are NOT saved in the parity set (and
+		// lie beside the index), a comment
+		s := decProtoRefSet(seed)
+		w.p1, w.index, w.paths, w.data = s, s.Index, s.Paths, s.Data
 	} else {
 		s, err := scen.GetP1(c18P1Cfgs[world], seed)
 		if err != nil {
@@ -65,6 +70,9 @@ func c18NewWorld(fmtName string, world int, seed int64) *c18World {
 	}
 	return w
 }
+
+// c18RefWorld: see c18NewWorld.
+const c18RefWorld = 5
 
 func (w *c18World) initial(op, state string, seed int64) *envfs.FS {
 	var fs *envfs.FS
@@ -292,6 +300,29 @@ func c18Gen(g *core.Gen) {
 		}
 	}
 	c18GenManyVolumes(g)
+	// the reference-written PAR1 set with entries that are not saved in the parity set: a fault at every call of Verify /
+	// Repair (whatever is read on account of those entries is a read like any other)
+	{
+		w := c18NewWorld("p1", c18RefWorld, g.Seed)
+		for _, op := range []string{"verify", "repair", "repairdc"} {
+			for _, st := range []string{"intact", "missing", "changed"} {
+				fs := w.initial(op, st, g.Seed)
+				base := w.run(fs, op, 0, -1, 0)
+				for i := range base.log {
+					kinds := 1
+					if base.log[i].Kind == "write" {
+						kinds = 1 + len(c18Cuts(base.log[i].Data))
+					}
+					if base.log[i].Kind == "read" {
+						kinds = 2
+					}
+					for k := 0; k < kinds; k++ {
+						g.Emit(&c18Case{Fmt: "p1", Op: op, State: st, I: i, Kind: k, World: c18RefWorld})
+					}
+				}
+			}
+		}
+	}
 	states := []string{"intact", "missing", "changed", "shifted", "beyond", "volmissing", "two", "lookalike", "volnamed"}
 	worlds := []int{0, 2}
 	if g.Thorough() {
@@ -638,7 +669,7 @@ func init() {
 	core.Register(&core.Prop{
 		ID:    "C18",
 		Level: "fault_enumeration",
-		Rule: "(plus the error-path alphabet of the decoder protocol search - see C14 - on one Decoder object per sequence: Repair with its 1st / 2nd write torn, loads whose 1st / 2nd / 3rd read fails, then counts / Repair retries on the same object; and the error-path alphabet of the encoder protocol search - see C05 / C10 - on one Encoder object per sequence: Write with its 1st / 2nd file write torn, loads whose 1st / 2nd read dies half-way, then the same calls again) a directory (empty / holding a file) in place of every file the operation reads or writes, of a file that is missing, and under one further name matching the recovery-file pattern, then taken away again; environment enumeration on the owned filesystem: {Create, Verify, Repair, Repair+double-check} x {PAR1, PAR2} x archive state {intact, one file missing, one changed, one shifted, beyond capacity, volume missing + damage, two damaged, recovery data under look-alike names (a renamed volume whose blocks are needed + another set's index), an index file whose own name looks like a recovery file's} x listing order {sorted, reversed, rotated}; thorough adds a larger world (3 files, 7 blocks in 3 recovery files; PAR1 4 files, 3 volumes) with all 6 listing orders; a fault at EACH I/O call index of the never-faulted run, of each kind (error without effect; for reads additionally the error together with the first half of the file; for writes additionally torn at byte 0, 1, middle, len-1 and packet/field boundaries), and for each such fault EVERY second fault in the re-run (pairs), followed by a fault-free re-run. " +
+		Rule: "(plus the error-path alphabet of the decoder protocol search - see C14 - on one Decoder object per sequence: Repair with its 1st / 2nd write torn, loads whose 1st / 2nd / 3rd read fails, then counts / Repair retries on the same object; and the error-path alphabet of the encoder protocol search - see C05 / C10 - on one Encoder object per sequence: Write with its 1st / 2nd file write torn, loads whose 1st / 2nd read dies half-way, then the same calls again) a PAR1 set from the reference writer that lists files not saved in the parity set (fault at every call of Verify / Repair); a directory (empty / holding a file) in place of every file the operation reads or writes, of a file that is missing, and under one further name matching the recovery-file pattern, then taken away again; environment enumeration on the owned filesystem: {Create, Verify, Repair, Repair+double-check} x {PAR1, PAR2} x archive state {intact, one file missing, one changed, one shifted, beyond capacity, volume missing + damage, two damaged, recovery data under look-alike names (a renamed volume whose blocks are needed + another set's index), an index file whose own name looks like a recovery file's} x listing order {sorted, reversed, rotated}; thorough adds a larger world (3 files, 7 blocks in 3 recovery files; PAR1 4 files, 3 volumes) with all 6 listing orders; a fault at EACH I/O call index of the never-faulted run, of each kind (error without effect; for reads additionally the error together with the first half of the file; for writes additionally torn at byte 0, 1, middle, len-1 and packet/field boundaries), and for each such fault EVERY second fault in the re-run (pairs), followed by a fault-free re-run. " +
 			"Oracle: a reached fault => non-nil error; a path whose write failed is not reported repaired; only write targets change; the fault-free re-run succeeds exactly like the never-faulted run and ends in the same directory whenever the reference says the (possibly torn) directory is still within capacity. non-trivial = the injected fault was reached",
 		Assumptions: []string{"faults are injected at the fileIO seam (the only I/O gopar performs)", "a torn write leaves a prefix of the data in the target file"},
 		NewCase:     func() interface{} { return &c18Case{} },
